@@ -195,6 +195,56 @@ pub fn run(ctx: &mut Ctx, c: &Case) -> (String, String) {
             let ops = c.str("ops").to_string();
             record(hs, &[], || iter_op(&be, &ns, hs, &ops))
         }
+        // ---- C12: building blocks
+        "rkfind" | "rkrfind" => {
+            let x = c.bytes("x");
+            let h = c.bytes("h");
+            let nx = if c.str("nx").is_empty() { x.clone() } else { c.bytes("nx") };
+            let hs = ctx.hay.place(&h, c.num("a"), flush_of(c.num("fl")));
+            let xs = ctx.needle.place(&x, c.num("an"), flush_of(c.num("fln")));
+            let fwd = c.op == "rkfind";
+            record(hs, xs, || {
+                if fwd {
+                    opt(all::rabinkarp::Finder::new(&nx).find(hs, xs))
+                } else {
+                    opt(all::rabinkarp::FinderRev::new(&nx).rfind(hs, xs))
+                }
+            })
+        }
+        #[cfg(feature = "alloc")]
+        "sofind" => {
+            let x = c.bytes("x");
+            let h = c.bytes("h");
+            let hs = ctx.hay.place(&h, c.num("a"), flush_of(c.num("fl")));
+            record(hs, &[], || match all::shiftor::Finder::new(&x) {
+                None => "Unsupported".to_string(),
+                Some(f) => opt(f.find(hs)),
+            })
+        }
+        "ppfind" | "ppprefilter" => {
+            let x = c.bytes("x");
+            let h = c.bytes("h");
+            let fx = if c.str("fx").is_empty() { x.clone() } else { c.bytes("fx") };
+            let hs = ctx.hay.place(&h, c.num("a"), flush_of(c.num("fl")));
+            let xs = ctx.needle.place(&fx, c.num("an"), flush_of(c.num("fln")));
+            let (i1, i2) = (c.num("i1") as u8, c.num("i2") as u8);
+            let isa = c.str("isa").to_string();
+            let find = c.op == "ppfind";
+            record(hs, xs, || pp_op(&isa, &x, i1, i2, hs, xs, find))
+        }
+        "pfprefilter" => {
+            let x = c.bytes("x");
+            let h = c.bytes("h");
+            let hs = ctx.hay.place(&h, c.num("a"), flush_of(c.num("fl")));
+            let (i1, i2) = (c.num("i1") as u8, c.num("i2") as u8);
+            record(hs, &[], || match all::packedpair::Pair::with_indices(&x, i1, i2) {
+                None => "NoPair".to_string(),
+                Some(p) => match all::packedpair::Finder::with_pair(&x, p) {
+                    None => "Unavailable".to_string(),
+                    Some(f) => opt(f.find_prefilter(hs)),
+                },
+            })
+        }
         _ => {
             let _ = opt(None);
             ("UnknownOp".to_string(), "-".to_string())
@@ -308,5 +358,32 @@ pub fn iter_op(be: &str, ns: &[u8], hs: &[u8], ops: &str) -> String {
             _ => "BadCase".to_string(),
         },
         _ => "BadBackend".to_string(),
+    }
+}
+
+macro_rules! pp_isa {
+    ($m:path, $x:expr, $i1:expr, $i2:expr, $hs:expr, $xs:expr, $find:expr) => {{
+        use $m as pp;
+        match memchr::arch::all::packedpair::Pair::with_indices($x, $i1, $i2) {
+            None => "NoPair".to_string(),
+            Some(p) => match pp::Finder::with_pair($x, p) {
+                None => "Unavailable".to_string(),
+                Some(f) => {
+                    let min = f.min_haystack_len();
+                    let r = if $find { f.find($hs, $xs) } else { f.find_prefilter($hs) };
+                    format!("min={}:{}", min, opt(r))
+                }
+            },
+        }
+    }};
+}
+
+pub fn pp_op(isa: &str, x: &[u8], i1: u8, i2: u8, hs: &[u8], xs: &[u8], find: bool) -> String {
+    match isa {
+        #[cfg(target_arch = "x86_64")]
+        "sse2" => pp_isa!(memchr::arch::x86_64::sse2::packedpair, x, i1, i2, hs, xs, find),
+        #[cfg(target_arch = "x86_64")]
+        "avx2" => pp_isa!(memchr::arch::x86_64::avx2::packedpair, x, i1, i2, hs, xs, find),
+        _ => "BadIsa".to_string(),
     }
 }
